@@ -26,7 +26,7 @@ PLAN["C01"] = {
              "the known failure modes (leaf symbols on one side, rule-less / useless states, binary rules with differently reached children) all occur with <=3 states and <=4 rules.",
     "technique": "bounded exhaustive enumeration of automata pairs x all InclParam configurations against a reference subset construction",
     "quick": [("rel", "c01.unimpl"), ("rel", "c01.n2s3k2"), ("rel", "c01.n2s2k3"), ("rel", "c01.trim.n2s3.a3b3"), ("rel", "c01.trim.n2s2.a3b5")],
-    "thorough": [("rel", "c01.unimpl"), ("rel", "c01.trim.n3s3.a3b3"), ("rel", "c01.trim.n2s2.a4b6"), ("rel", "c01.trim.n2s2.a5b7"), ("rel", "c01.n2s3k3"), ("rel", "c01.n3agk4"), ("rel", "c01.n2s2k4"), ("rel", "c01.trim.n3s3.a3b4"), ("rel", "c01.trim.n3afh.a3b3"), ("rel", "c01.trim.n4s3p.a3b4"), ("rel", "c01.trim.n3s3.a4b4")],
+    "thorough": [("rel", "c01.unimpl"), ("rel", "c01.trim.n3s3.a3b3"), ("rel", "c01.trim.n2s2.a4b6"), ("rel", "c01.trim.n2s2.a5b7"), ("rel", "c01.n2s3k3"), ("rel", "c01.n3agk4"), ("rel", "c01.n2s2k4"), ("rel", "c01.trim.n3s3.a3b4"), ("rel", "c01.trim.n3afh.a3b3"), ("rel", "c01.trim.n4s3p.a2b4")],   # c01.trim.n4s3p.a3b4 and c01.trim.n3s3.a4b4 need > 25 min each: registered in the engine, not in a tier
     "require": {"all": ["expect_included", "nonemptyA_not_included", "nonemptyA_included", "class_A_nullary_B_lacks", "class_A_state_without_rules",
                         "class_useless_states", "class_binary_both", "unimpl_calls"]},
 }
@@ -71,13 +71,13 @@ PLAN["C04"] = {
 
 PLAN["C05"] = {
     "level": "exploration",
-    "rule": "every automaton of TA(n,Sigma,<=k) under 3 numberings (dense, sparse 7q+3, descending) and, for the 4-state domains, under ALL rule insertion orders (hash iteration order): Reduce() vs reference (language equal, #states and #rules not larger, result is "
+    "rule": "every automaton of TA(n,Sigma,<=k) under 3 numberings (dense, sparse 7q+3, descending) and, for the 4-state domains, under ALL rule insertion orders (hash iteration order), plus EVERY automaton (all 2^|U| rule sets x all final sets) with 3 states over {a:0,b:0,g:1} (thorough: 4 states, 251 M automata): Reduce() vs reference (language equal, #states and #rules not larger, result is "
             "an onto homomorphic image: some map of A's states onto the result's states carries finals and rules of the result), operand unchanged; non-trivial = non-empty language and >=2 rules",
     "assumptions": COMMON_ASSUMPTIONS,
     "claim": "Every automaton of the finite domains under three numberings.",
     "technique": "bounded exhaustive enumeration of automata x numberings against reference language equality and image search",
-    "quick": [("rel", "c05.n3s3pk4"), ("rel", "c05.n2s3k6"), ("rel", "c05.n4afk4"), ("rel", "c05.n4afk5.std"), ("rel", "c05.n3afhk3")],
-    "thorough": [("rel", "c05.n4afk5"), ("rel", "c05.n4s3pk3"), ("rel", "c05.n3s3pk5"), ("rel", "c05.n2s3k7"), ("rel", "c05.n3afhk3")],
+    "quick": [("rel", "c05.n3s3pk4"), ("rel", "c05.n2s3k6"), ("rel", "c05.n4afk4"), ("rel", "c05.n4afk5.std"), ("rel", "c05.n3afhk3"), ("rel", "c05.all.n3abg1")],
+    "thorough": [("rel", "c05.n4afk5"), ("rel", "c05.n4s3pk3"), ("rel", "c05.n3s3pk5"), ("rel", "c05.n2s3k7"), ("rel", "c05.n3afhk3"), ("rel", "c05.all.n3abg1"), ("rel", "c05.all.n4ag1"), ("rel", "c05.all.n4abg1")],
     "require": {"all": ["reduced_states", "class_useless_states", "lang_nonempty"]},
 }
 
